@@ -138,9 +138,20 @@ impl Property for C13 {
                     match r {
                         Api::Ok(v) => match base {
                             None => {
+                                // the heap base is the start of the area that ends at the first reported break
+                                // (read from the area list; the guest-visible break may lie above it)
+                                let start = ax.verif_area_meta().iter().find(|m| m.0 < v && v - m.0 <= m.1).map(|m| m.0);
+                                let v = match start {
+                                    Some(st) => {
+                                        cur = v - st;
+                                        known.resize(cur as usize, None);
+                                        st
+                                    }
+                                    None => v,
+                                };
                                 base = Some(v);
                                 if c.blocker_pages > 0 {
-                                    let b = v + 0x1000 * c.blocker_pages;
+                                    let b = v + cur + 0x1000 * c.blocker_pages;
                                     if ax.mem_init_zero(b, c.blocker_len).is_ok() {
                                         blocker = Some(b);
                                     }
@@ -264,12 +275,12 @@ impl Property for C13 {
     }
 
     fn rule(&self) -> String {
-        "cases: histories of 2–29 operations — brk(0), brk(base+off) with off from {0, ±1, page multiples, odd sizes, up to 1 MiB, shrink below, half}, guest byte stores and loads (MOV executed with step()) at the first byte, last byte and random offsets of the heap — under layouts with the code low or high, 0–2 extra low areas and an optional blocker area 1–64 pages above the heap base; break model: base = first brk(0); brk(p≥base) with nothing in the way returns p and brk(0) then returns p; every byte in [base, break) is guest-readable/writable and keeps its value until the break goes below it; growth into an occupied range may fail but must not overlap; areas stay pairwise disjoint; non-trivial = a grow after a store and a shrink followed by a regrow; distinct by hash(history)".into()
+        "cases: histories of 2–29 operations — brk(0), brk(base+off) with off from {0, ±1, page multiples, odd sizes, up to 1 MiB, shrink below, half}, guest byte stores and loads (MOV executed with step()) at the first byte, last byte and random offsets of the heap — under layouts with the code low or high, 0–2 extra low areas and an optional blocker area 1–64 pages above the heap base; break model: base = start of the heap area found at the first brk(0); brk(p≥base) with nothing in the way returns p and brk(0) then returns p; every byte in [base, break) is guest-readable/writable and keeps its value until the break goes below it; growth into an occupied range may fail but must not overlap; areas stay pairwise disjoint; non-trivial = a grow after a store and a shrink followed by a regrow; distinct by hash(history)".into()
     }
     fn required_classes(&self, _tier: Tier) -> Vec<String> {
         ["grow-after-store", "shrink-regrow", "load-of-known-byte", "growth-into-occupied-range"].iter().map(|s| s.to_string()).collect()
     }
     fn assumptions(&self) -> Vec<String> {
-        vec!["the heap base is whatever the first brk(0) returns; brk(p) for p below it is outside the stated domain and not generated".into(), "bytes that left the heap by a shrink are unspecified after a regrow".into()]
+        vec!["the heap base is the start of the area that ends at the break reported by the first brk(0) (read from the area list); brk(p) for p below it is outside the stated domain and not generated".into(), "bytes that left the heap by a shrink are unspecified after a regrow".into()]
     }
 }
